@@ -550,7 +550,8 @@ def strategy(w):
 
     @st.composite
     def cases(draw):
-        target = draw(st.sampled_from(tests))
+        # the default primary set is small: aim at it in about a quarter of the cases
+        target = draw(st.sampled_from(tests + sorted(in_default) * 8))
         comps = target.split(".")
         sel_args, kv_args, vm_args, err_args = [], [], [], []
 
@@ -597,7 +598,7 @@ def strategy(w):
                 key = draw(fresh_key)
             used_keys.append(key)
             kv_args.append(key + "=" + draw(override_value()))
-        special = draw(st.integers(0, 29))
+        special = draw(st.integers(0, 19))
         if special == 0:
             kv_args.append("default_only=" + draw(st.sampled_from(w.main_restrictions)))
         elif special == 1:
@@ -625,7 +626,7 @@ def strategy(w):
         strict = lambda: draw(st.sampled_from(["only", "no"])) + "_nets=" + draw(st.sampled_from(NETS_RESTR))
         explicit = lambda: "nets=" + draw(st.sampled_from(NETS_EXPLICIT))
         if scenario == "restr":
-            nets_args = [restr() for _ in range(draw(st.sampled_from([1, 1, 2])))]
+            nets_args = [restr() for _ in range(draw(st.sampled_from([1, 2, 2])))]
         elif scenario == "explicit":
             nets_args = [explicit() for _ in range(draw(st.sampled_from([1, 1, 2])))]
         elif scenario == "restr-then-explicit":
